@@ -144,7 +144,7 @@ def shared_state_rule(A, rule):
     """the store object is shared by all threads / calls: nothing but construction may write
     its attributes (a per-call value parked in `self` is visible to, and overwritten by,
     every concurrent call)"""
-    init_like = {f"{CLS}.__init__", f"{CLS}._set_default_algorithms"}
+    init_like = {f_.qual for f_ in A.p.ctor_funcs(CLS)}
 
     def class_expr(e, aliases):
         t = ast.unparse(e)
@@ -673,7 +673,8 @@ def check_C16(A: Analysis, tier):
     rules = []
     init = A.p.func(f"{CLS}.__init__")
     ifs = _mode_ifs(A)
-    ctor = [(f, n) for f, n in ifs if f is init and isinstance(n, ast.If) and _attrs(n.body, "_mp", ast.Store) and _attrs(n.orelse, "_th", ast.Store)]
+    ctor_q = {f_.qual for f_ in A.p.ctor_funcs(CLS)}
+    ctor = [(f, n) for f, n in ifs if f.qual in ctor_q and isinstance(n, ast.If) and _attrs(n.body, "_mp", ast.Store) and _attrs(n.orelse, "_th", ast.Store)]
     if len(ctor) != 1:
         raise AnalysisError("constructor mode guard (an `if` on self.use_multiprocessing defining the *_mp / *_th "
                             f"primitives) not found exactly once in {CLS}.__init__ (found {len(ctor)})")
@@ -684,9 +685,10 @@ def check_C16(A: Analysis, tier):
         is_logging_stmt(s_) or is_logger_assign(s_) for s_ in list(n.body) + list(n.orelse)) and not _attrs(list(n.body) + list(n.orelse), "_mp")
         and not _attrs(list(n.body) + list(n.orelse), "_th") and any(not is_logging_stmt(s_) for s_ in list(n.body) + list(n.orelse)))]
     flag_assign = None
-    for n in func_nodes(init, ast.Assign):
-        if len(n.targets) == 1 and self_attr(n.targets[0]) == "use_multiprocessing":
-            flag_assign = n
+    for f_ in A.p.ctor_funcs(CLS):
+        for n in func_nodes(f_, ast.Assign):
+            if len(n.targets) == 1 and self_attr(n.targets[0]) == "use_multiprocessing":
+                flag_assign = n
     if flag_assign is None:
         raise AnalysisError("self.use_multiprocessing is not assigned in the constructor")
 
